@@ -5,13 +5,19 @@
    wire layout (owner name, TYPE, CLASS, TTL, RDLENGTH, A address) decodes to exactly its fields
    wherever it lies; the RECORD DATA of all 17 supported types round-trips: the typed decoder
    applied to the uncompressed RFC wire form (code-blind Spec/RDataWire.v) of any encodable value
-   returns exactly that value.  Compressed layouts of whole messages are decided by the roundtrip
-   stream (AST -> several compression
-   engines -> reader and iterator -> field-by-field comparison); see DESIGN.md §5 C02. *)
+   returns exactly that value; a whole record with its owner compressed in any legal way decodes to
+   its labels, fields and value.  WHOLE MESSAGES: if questions and records (described semantically:
+   labels of a name standing there in any legal compression, fields, an encodable value) stand
+   back to back behind the header and the header announces them, the code-blind linear pass finds
+   exactly them ([parsed], Properties/C09.v) — so every allowed call sequence of the reader returns
+   exactly these items in wire order and nothing else (C09_reader_refines and the flavour theorems),
+   and the typed decode at each record is its value.  Names compressed INSIDE record data and the
+   three compression engines of the generator are decided by the roundtrip stream (AST -> several
+   compression engines -> reader and iterator -> field-by-field comparison); DESIGN.md §5 C02. *)
 From Coq Require Import ZArith Lia.
 From RsdnsModel Require Import Base GenConst GenCursor GenHeader GenSpec Cursor Names Labels Header Tracker RData Reader Writer.
-From RsdnsModel.Spec Require Import WireName RDataWire.
-From RsdnsModel.Proofs Require Import CursorSafe ListN Bits WriterLayout RecordRT RDataRT ParseSpec RecordFull.
+From RsdnsModel.Spec Require Import WireName LinearPass RDataWire.
+From RsdnsModel.Proofs Require Import CursorSafe ListN Bits WriterLayout RecordRT RDataRT ParseSpec RecordFull ReaderRefine MessageRT.
 Open Scope N_scope.
 
 Definition be16 (msg : list byte) (off : N) : N := be_val (subN msg off 2) 0.
@@ -107,3 +113,41 @@ Theorem C02_record_roundtrip : forall msg nk c ls r pre post ty cl ttl a p s,
     read_rdata msg ty (m_rdlen mk) = Some m /\ m c2 = (c3, Ok (rdata_val a)) /\
     pos c3 = r + 10 + lenN (rdata_enc a).
 Proof. exact record_roundtrip. Qed.
+
+(* ---- whole messages ----
+   [question_stands msg p q e] / [record_stands msg p x e] (Proofs/MessageRT.v): at offset p stands
+   a name with a legal expansion into the labels of q / x (any legal compression, valid labels,
+   at most 255 octets) followed where it resumes by QTYPE QCLASS / by TYPE CLASS TTL RDLENGTH and
+   the RFC wire form of the value; e is the offset behind it.  The item the code-blind pass finds
+   there carries exactly these fields and offsets, with its data inside the message. *)
+Theorem C02_standing_items : forall msg,
+  (forall p q e, question_stands msg p q e -> question_at msg p = Some (qitem p q e)) /\
+  (forall p x e, record_stands msg p x e -> record_at msg p = Some (ritem p x e)).
+Proof. intro msg. split; [exact (question_at_of msg)|exact (record_at_of msg)]. Qed.
+
+(* a message of 12..65535 octets whose header counts are those of the questions and records that
+   stand in it back to back is parsed completely, into exactly those items *)
+Theorem C02_whole_message_parsed : forall msg nq an ns ar (qs : list squestion) (rs : list srecord) e1 e2,
+  lenN msg <= 65535 -> 12 <= lenN msg ->
+  questions_stand msg 12 qs e1 -> records_stand msg e1 rs e2 ->
+  lenN qs = nq -> lenN rs = an + ns + ar -> nq <= 65535 -> an <= 65535 -> ns <= 65535 -> ar <= 65535 ->
+  exists qends rends,
+    parsed msg nq an ns ar (qitems 12 qs qends) (ritems e1 rs rends) e1 e2 /\
+    lenN (qitems 12 qs qends) = nq /\ lenN (ritems e1 rs rends) = an + ns + ar.
+Proof. exact message_parsed. Qed.
+
+(* and the typed decoder run at the data offset of a standing record returns its value and stops
+   at the end of the record *)
+Theorem C02_standing_record_decodes : forall msg p x e c,
+  record_stands msg p x e -> whole msg c -> pos c = a_type_off (ritem p x e) + 10 ->
+  exists m, read_rdata msg (sr_type x) (a_rdlen (ritem p x e)) = Some m /\
+            m c = (c_set_pos c e, Ok (rdata_val (sr_data x))).
+Proof. exact standing_record_decodes. Qed.
+
+(* the premises are satisfiable: a 35-octet response with one question and one answer whose owner
+   is a compression pointer to the question name *)
+Example C02_whole_message_example :
+  let q := mkSQ [(12, [x61])] 1 1 in
+  let x := mkSR [(12, [x61])] 1 1 60 (A_A 16909060) in
+  questions_stand example_msg 12 [q] 19 /\ records_stand example_msg 19 [x] 35 /\ lenN example_msg = 35.
+Proof. exact example_stands. Qed.
